@@ -74,7 +74,6 @@ struct State {
   std::vector<Alarm> alarms;
   uint64_t nW = 0, nR = 0, nIdx = 0, nCall = 0;
   std::vector<std::string> events;
-  std::map<int, std::bitset<1024>> readBits;      // traced regions: offsets that some load / contract read / copy source may touch
   int64_t steps = 0;
   bool aborted = false;
   std::string abortMsg;
@@ -93,9 +92,13 @@ inline void addEvent(State &S, const std::string &e) {
   S.events.push_back(e);
 }
 
+// read tracing is per cell, not per path (it must not keep otherwise identical states apart): the union over all explored paths
+struct CellTrace { std::map<std::string, std::bitset<1024>> reads; std::set<std::string> events; };
+inline CellTrace &cellTrace() { static CellTrace t; return t; }
+inline void traceEvent(const std::string &e) { cellTrace().events.insert(e); }
 inline void markRead(State &S, int reg, i128 lo, i128 hi) {   // [lo,hi)
   if (reg < 0 || !S.regions[reg].traced) return;
-  auto &b = S.readBits[reg];
+  auto &b = cellTrace().reads[S.regions[reg].name];
   if (lo < 0) lo = 0;
   if (hi > 1024) hi = 1024;
   for (i128 i = lo; i < hi; i++) b.set((size_t)i);
